@@ -105,7 +105,7 @@ def run(ctx):
                        {"kind": "case", "case": c})
     for i, clauses in sorted(wfailed.items()):
         for cl in clauses:
-            ctx.report(f"{cl}|{weights[i]['y']}",
+            ctx.report(f"{cl}|{weights[i]['y']}|{weights[i].get('dtype')}",
                        f"{cl} fails for responses {weights[i]['y']}: "
                        f"weights {weights[i]['w']} {weights[i]['raised']}",
                        {"kind": "weight", "y": weights[i]["y"]})
